@@ -238,3 +238,32 @@ PROPS = {
 }
 NOT_YET = {
 }
+
+# ---- session 4 additions (appended to the claimed texts) ---------------------------------------------------------
+_ADD = {
+ "C02": (" Fault probe (direct monitor on the real code, harness/k3_c02_probe.cpp): the k-th connect() of the source throws under retry_when / "
+         "repeat_effect_until (the re-connecting algorithms), k = 0..4: construction/destruction balance, no destructor on a dead or never constructed "
+         "operation state, documented completion. Stored values: a bound-value watch in K2v2 (a successor operation checks in its destructor that the "
+         "value let_value bound for it is alive); their model (Calc2 stage 6) is not installed."),
+ "C04": (" Fault probe (direct monitor, harness/k3_c04_probe.cpp): stop_on_request over 1-3 external tokens whose k-th callback registration throws: "
+         "no callback left on the receiver's token at completion. when_all_range / stop_when: see the RegElect unit (Properties_C04_elect.v) when installed."),
+ "C09": (" The spawn fault sweep also hands the sender over as an lvalue of a type with a throwing copy and a noexcept move (every noexcept-specification "
+         "on the nest() path must be computed for the copy)."),
+ "C10": (" SrThunk now carries the continuation chosen by complete_and_choose_continuation: theorem C10_srthunk_resumes_own_result (whoever resumes, the "
+         "continuation for the body's own value/error/done is resumed); the driver's monitor compares the task's result with its body's."),
+ "C11": (" TraitsMulti (Properties_C11_multi.v, 38 theorems): the n-ary trait formulas of let_value (n value signatures), let_error (n error types), "
+         "when_all, stop_when, sequence, variant_sender mirrored over lists; for ALL lists of sound components the mirrored traits are sound for every "
+         "behaviour of an executable semantics of the combinator (always_inline / always / never / sends_done / affine); the as-found when_all / stop_when "
+         "`never` formulas are refuted (fixed in /repo) and the repaired ones proved; tie: systematic families of real senders over harness components "
+         "(compile-time traits vs mirror, observed runs vs semantics, direct + crossed soundness monitors) and real-library probes."),
+ "C17": (" indexed_for (seq and par, also with a throwing function) is compared with the same index model."),
+ "C19": (" create_basic_sender: 60 parameter values incl. body events that request stop on the operation's own source re-entrantly (before / after "
+         "set_value) and a re-requesting stop event: theorems stop_dispatch (stop event at most once, only to a started unfinished operation) and "
+         "first_decision_wins."),
+ "C20": (" Coroutine path under schedule control: the task stop-request thunk driver built with assertions and async stacks (cfg shimdbg20) - every "
+         "explored schedule must pass the library's own async-stack assertions and the SrThunk lock-step. The C02/C04 fault probes are built in the "
+         "four C++17 configurations and must print what the release build prints."),
+ "C14": (" io_uring real-thread monitors: wall-clock bounds scaled by VERIF_TIME_SCALE (default 6); `resubmit 640` exercises completion-ring wrap-around."),
+}
+for _k, _v in _ADD.items():
+    PROPS[_k]["text"] = PROPS[_k]["text"] + _v
